@@ -207,14 +207,18 @@ fn token_soup_never_panics() {
     let vocab = ["\\advance", "\\catcode", "\\chardef", "\\count", "\\countdef", "\\dimen", "\\divide", "\\else", "\\endlinechar", "\\expandafter", "\\fi",
         "\\global", "\\globaldefs", "\\ifcase", "\\iffalse", "\\ifnum", "\\ifodd", "\\iftrue", "\\let", "\\long", "\\mathchardef", "\\mathcode", "\\multiply",
         "\\noexpand", "\\or", "\\outer", "\\relax", "\\skip", "\\the", "\\toks", "\\toksdef", "\\year", "\\a", "\\b", "\\c", "\\undefinedcs",
-        "{", "}", "{", "}", " ", "=", "-", "1", "2", "9", "0", "255", "-2147483647", "2147483647", "x", "y", "pt", "fil", "plus", "minus", "by", "to", ".", "#", "#1", "~", "`", "'", "\"", "<", ">", "é"];
+        "{", "}", "{", "}", " ", "=", "-", "1", "2", "9", "0", "255", "-2147483647", "2147483647", "x", "y", "pt", "fil", "plus", "minus", "by", "to", ".", "#", "#1", "~", "`", "'", "\"", "<", ">", "é",
+        // input-level vocabulary: line ends, the ^^ notation, \\read / \\input / \\openin, more non-ASCII
+        "\n", "\n", "^^", "^^M", "^^4", "^^é", "\\read", "\\openin", "\\closein", "\\ifeof", "\\input", "\\endinput", "\\jobname", "\\def", "\\gdef", "3", "16", "日", "\u{301}", "\\endlinechar=-1 ", "%"];
     let mut state: u64 = 0x243F6A8885A308D3;
     let mut next = move || { state ^= state << 13; state ^= state >> 7; state ^= state << 17; state };
     let n_programs = if thorough { 120_000 } else { 15_000 };
     let mut failures = 0;
     for _ in 0..n_programs {
         let len = 1 + (next() % 10) as usize;
-        let mut src = String::from("\\batchmode \\def\\a#1{(#1)}\\def\\b{z}\\def\\c#1.#2{#2#1}");
+        // (the interaction mode changes per program: in scroll / nonstop / batch mode errors are rendered inside the run)
+        let mut src = String::from(["\\batchmode ", "\\scrollmode ", "\\nonstopmode ", ""][(next() % 4) as usize]);
+        src.push_str("\\def\\a#1{(#1)}\\def\\b{z}\\def\\c#1.#2{#2#1}");
         for _ in 0..len { src.push_str(vocab[(next() % vocab.len() as u64) as usize]); if next() % 3 == 0 { src.push(' '); } }
         let s2 = src.clone();
         let r = std::panic::catch_unwind(move || {
